@@ -137,5 +137,14 @@ namespace gmgpolar_verif {
 struct Access {
     static const SparseMatrixCSR<double>& csr(const DirectSolverGiveCustomLU& s) { return s.solver_matrix_; }
     static const SparseMatrixCSR<double>& csr(const DirectSolverTakeCustomLU& s) { return s.solver_matrix_; }
+    // the task functions of the parallel regions (K-footprint, C11)
+    template <class S> static void ac(S& s, int i, SmootherColor c, const Vector<double>& x, const Vector<double>& rhs, Vector<double>& t) { s.applyAscOrthoCircleSection(i, c, x, rhs, t); }
+    template <class S> static void ar(S& s, int i, SmootherColor c, const Vector<double>& x, const Vector<double>& rhs, Vector<double>& t) { s.applyAscOrthoRadialSection(i, c, x, rhs, t); }
+    template <class S> static void sc(S& s, int i, Vector<double>& x, Vector<double>& t, Vector<double>& s1, Vector<double>& s2) { s.solveCircleSection(i, x, t, s1, s2); }
+    template <class S> static void sr(S& s, int i, Vector<double>& x, Vector<double>& t, Vector<double>& s1) { s.solveRadialSection(i, x, t, s1); }
+    static void gc(const ResidualGive& o, int i, Vector<double>& res, const Vector<double>& x) { o.applyCircleSection(i, res, x); }
+    static void gr(const ResidualGive& o, int i, Vector<double>& res, const Vector<double>& x) { o.applyRadialSection(i, res, x); }
+    static void tc(const ResidualTake& o, int i, Vector<double>& res, const Vector<double>& rhs, const Vector<double>& x) { o.applyCircleSection(i, res, rhs, x); }
+    static void tr(const ResidualTake& o, int i, Vector<double>& res, const Vector<double>& rhs, const Vector<double>& x) { o.applyRadialSection(i, res, rhs, x); }
 };
 } // namespace gmgpolar_verif
